@@ -84,6 +84,16 @@ type c10State struct {
 
 func c10Root(tr *mpt.Trie) []byte { return tr.StateRoot().BytesBE() }
 
+// c10Scribble flips every byte of a slice the harness owns after the call: a result handed out by the trie, or an
+// argument buffer (keys, proof lists) the trie has no business keeping.  Nothing observable may change.
+func c10Scribble(bs ...[]byte) {
+	for _, b := range bs {
+		for i := range b {
+			b[i] ^= 0xFF
+		}
+	}
+}
+
 func c10Fresh(content map[string][]byte, reverse bool) []byte {
 	st := storage.NewMemCachedStore(storage.NewMemoryStore())
 	tr := mpt.NewTrie(nil, mpt.ModeAll, st)
@@ -205,8 +215,9 @@ func c10Exec(in c10Input, checkFresh bool) (*c10State, string) {
 			if err := s.tr.Put(k, v); err != nil {
 				failed = true
 			} else {
-				s.content[string(k)] = v
+				s.content[string(k)] = bytes.Clone(v)
 			}
+			c10Scribble(k)
 		case "del":
 			k := unhx(o.K)
 			if err := s.tr.Delete(k); err != nil {
@@ -214,6 +225,7 @@ func c10Exec(in c10Input, checkFresh bool) (*c10State, string) {
 			} else {
 				delete(s.content, string(k))
 			}
+			c10Scribble(k)
 		case "batch":
 			m := map[string][]byte{}
 			for _, e := range o.KV {
@@ -314,6 +326,7 @@ func (s *c10State) readOne(k []byte) string {
 	if !ok && err == nil {
 		return fmt.Sprintf("Get(%x) = %x, the key is not stored", k, v)
 	}
+	c10Scribble(v) // the returned value is the caller's
 	return ""
 }
 
@@ -344,6 +357,8 @@ func (s *c10State) proofOne(k []byte) string {
 	if !vok || !bytes.Equal(v, want) {
 		return fmt.Sprintf("VerifyProof(root, %x, GetProof(%x)) = (%x, %v), stored value is %x", k, k, v, vok, want)
 	}
+	c10Scribble(pr...) // the proof elements and the verified value are the caller's
+	c10Scribble(v)
 	return ""
 }
 
@@ -371,6 +386,8 @@ func (s *c10State) proofAll() string {
 		if !ok || !bytes.Equal(v, s.content[k]) {
 			return fmt.Sprintf("VerifyProof(root, %x, GetProof(%x)) = (%x, %v), stored value is %x", k, k, v, ok, s.content[k])
 		}
+		c10Scribble(pr...)
+		c10Scribble(v)
 	}
 	return ""
 }
@@ -883,6 +900,7 @@ func c10RunCase(co *caseOut, kind string, in c10Input) {
 			ts.Seek(storage.SeekRange{Prefix: append([]byte{byte(storage.STStorage)}, prefix...), Start: start, Backwards: q.Backwards},
 				func(k, v []byte) bool {
 					kvs = append(kvs, [2][]byte{bytes.Clone(k[1:]), bytes.Clone(v)})
+					c10Scribble(k, v)
 					return true
 				})
 		})
